@@ -5,6 +5,14 @@ from ..gen import bundled_files, encodings, hexs
 from ..readergen import ENCODINGS, ERROR_KINDS, chunk_random, gen_text, with_intr
 from ..runner import Case, Property
 
+SYNTH_MAPS = [
+    "osu file format v14\n\n[General]\nAudioFilename: a.mp3\nMode: 0\nEpilepsyWarning: 1\n\n[Editor]\nBookmarks: 1,2\n\n[Metadata]\nTitle:t\nBeatmapID:5\n\n"
+    "[Events]\n0,0,\"bg.jpg\",0,0\nVideo,0,\"v.mp4\"\n2,100,900\n\n[TimingPoints]\n0,400,3,2,1,60,1,9\n500,-50,4,1,0,100,0,1\n\n[Colours]\nCombo1 : 1,2,3\nSliderBorder : 4,5,6\n\n"
+    "[HitObjects]\n100,100,1000,6,0,B3|150:150|200:100|250:150,1,160\n10,20,1500,2,2,B|30:40|B|50:60|70:80|L|90:10,2,120,2|0|8,1:2|0:0|3:1,1:0:0:0:\n"
+    "50,50,2000,2,0,P|60:80|90:50,1,70\n50,50,2500,2,0,C|60:80|90:50|120:90,1,90\n256,192,3000,12,4,3500,0:0:0:0:hit.wav\n64,192,4000,1,8,1:2:3:40:\n",
+    "osu file format v14\n\n[General]\nMode: 3\nSpecialStyle: 1\n\n[Difficulty]\nCircleSize:4\n\n[TimingPoints]\n0,300,4,1,0,100,1,0\n100,-25,4,1,0,100,0,1\n200,-2000,4,1,0,100,0,0\n\n"
+    "[HitObjects]\n64,192,1000,128,0,1500:0:0:0:0:\n192,192,1200,1,2,0:0:0:0:\n320,192,1300,2,0,B4|330:192|340:192|350:192|360:192,1,50\n",
+]
 WRITE_FAULTS = ["f" + k for k in ERROR_KINDS] + ["z"]
 
 
@@ -141,6 +149,11 @@ class C09(Property):
 
         # ---- write side ------------------------------------------------------------------------
         names = [os.path.basename(f).replace(" ", "+") for f in bundled_files()]
+        # small synthetic maps with the constructs no small bundled map has (B-spline with an explicit degree, multi-segment and
+        # perfect / Catmull paths, per-node banks and sounds, custom sample file, hold note, custom colours, video + background,
+        # bookmarks, breaks, kiai / omit-first-bar-line, taiko scroll speeds): every output byte of the encoder is a fault position
+        # in the quick tier too (seed C09-l: the result of writing one byte - the `B` in front of a degree - dropped)
+        names += ["hex:" + hexs(t.encode()) for t in SYNTH_MAPS]
         info = core.run_impl(["enccalls " + n for n in names])
         real_calls = []
         for name, o in zip(names, info):
